@@ -11,7 +11,7 @@ def Res.All (P : Tmpl → Prop) : Res → Prop
   | _ => True
 
 def Pc.All (P : Tmpl → Prop) : Pc → Prop
-  | .gS _ t | .gP _ t | .gW _ _ t | .rK t _ _ _ _ => P t
+  | .gS _ t | .gP _ t | .gW _ _ t | .rK t _ _ _ _ | .gRelS _ t => P t
   | .gM r | .gMd r _ | .gRel r => r.All P
   | _ => True
 
@@ -32,7 +32,7 @@ def Thread.All (P : Tmpl → Prop) (th : Thread) : Prop :=
 @[simp] theorem Pc.all_gP2 {P : Tmpl → Prop} {u} : (Pc.gP2 u).All P ↔ True := Iff.rfl
 @[simp] theorem Pc.all_gRel {P : Tmpl → Prop} {r} : (Pc.gRel r).All P ↔ r.All P := Iff.rfl
 @[simp] theorem Pc.all_rK {P : Tmpl → Prop} {t c k l u} : (Pc.rK t c k l u).All P ↔ P t := Iff.rfl
-@[simp] theorem Pc.all_aG {P : Tmpl → Prop} {k} : (Pc.aG k).All P ↔ True := Iff.rfl
+@[simp] theorem Pc.all_gRelS {P : Tmpl → Prop} {u t} : (Pc.gRelS u t).All P ↔ P t := Iff.rfl
 @[simp] theorem Pc.all_aS {P : Tmpl → Prop} {k} : (Pc.aS k).All P ↔ True := Iff.rfl
 @[simp] theorem Res.all_adjusted {P : Tmpl → Prop} {k} : (Res.adjusted k).All P ↔ True := Iff.rfl
 @[simp] theorem Res.all_keyError {P : Tmpl → Prop} : (Res.keyError).All P ↔ True := Iff.rfl
@@ -127,7 +127,7 @@ theorem tstep_all {P P' : Tmpl → Prop} {cfg : Cfg} {tid : Tid} {sh sh' : Sh} {
            · exact hres
            · exact hlast
            · exact hlast _ ‹_›))
-  all_goals (rw [‹th.pc = _›] at hpc hnew; try simp only [Pc.all_gS, Pc.all_gP, Pc.all_gW, Pc.all_gM, Pc.all_gMd, Pc.all_gRel, Pc.all_rK] at hpc)
+  all_goals (rw [‹th.pc = _›] at hpc hnew; try simp only [Pc.all_gS, Pc.all_gP, Pc.all_gW, Pc.all_gM, Pc.all_gMd, Pc.all_gRel, Pc.all_rK, Pc.all_gRelS] at hpc)
   all_goals (
     refine ⟨?_, ?_⟩
     · first
